@@ -53,6 +53,9 @@ class CreateRegions(Harness):
         if tier == "quick":
             # one 4-area layout class on a linear record (nested + chained + independent needs four areas)
             out.append({"kinds": ["S"] * 4, "shapes": ["s"] * 4, "circ": False, "sorted": True})
+            # ... and one on a ring: an origin-spanning area and three others (two separate areas inside its part before the
+            # origin, with an unrelated area in between, need four)
+            out.append({"kinds": ["S"] * 4, "shapes": ["o", "s", "s", "s"], "circ": True, "sorted": True})
         return out
 
     def vars(self, var):
@@ -66,8 +69,9 @@ class CreateRegions(Harness):
         c = [shape_pre("a%d" % i, sh, v, n) for i, sh in enumerate(var["shapes"])] + [0 <= v["x"], v["x"] < n]
         if var.get("sorted"):
             # symmetry breaking for the 4-area variant: areas supplied by ascending start
-            for i in range(len(var["shapes"]) - 1):
-                c.append(v["a%ds0" % i] <= v["a%ds0" % (i + 1)])
+            simple = [i for i, sh in enumerate(var["shapes"]) if sh == "s"]
+            for i, j in zip(simple, simple[1:]):
+                c.append(v["a%ds0" % i] <= v["a%ds0" % j])
         return L.And(c)
 
     def run(self, var, v):
